@@ -115,6 +115,8 @@ verus_unit(
                               text="ensures: symbol outside model => Err(Frontend), coder unchanged; flush iff state>>(SB-P) >= p; failed write => Err(Backend), coder unchanged; state' == ll_push_head(..) [all P]"),
         "decode_symbol": dict(own=["C06", "C10"], dep=["C01", "C04"], kani_twin="ans::u8_u16_p8::conf_decode",
                               text="ensures: Ok(model.sym); state' == ll_pop_head(..), refill iff below 2^(SB-WB) and a word exists; no overflow [all P]"),
+        "thm_encode_is_push": dict(own=["C01", "C04", "C06", "C12"], dep=[], text="layer B = layer A: the Ok-postcondition of encode_symbol is the mathematical rANS push on the (bulk,state) view"),
+        "thm_decode_is_pop": dict(own=["C01", "C04", "C06"], dep=[], text="layer B = layer A: the postcondition of decode_symbol is the mathematical rANS pop"),
     },
 )
 lemma("lemmas_ans.rs", ["C01", "C04", "C12"])
